@@ -752,9 +752,9 @@ var c18Provers = map[string]bool{"plookupvec": true, "plookuptab": true, "permut
 	"shplonk": true, "kzglagrange": true}
 
 var c18ParCost = map[string]c18ParRun{
-	"merkle": {0x28, 8, 4}, "vortex": {0x18, 4, 4}, "fft": {5, 4, 2}, "sis": {8, 4, 2}, "vector": {0x20, 6, 2},
+	"merkle": {0x28, 8, 4}, "vortex": {0x18, 4, 4}, "fft": {5, 4, 2}, "sis": {8, 4, 2}, "vector": {0x18, 6, 2},
 	"batchjactoaff": {0xc, 4, 1}, "batchscalarmul": {8, 4, 1}, "iop": {0x10, 4, 2}, "iopratio": {8, 4, 2},
-	"kzgopen": {6, 3, 1}, "kzgcommit": {8, 4, 2}, "kzgbatchopen": {5, 3, 1}, "multiexp": {4, 3, 2}, "codec": {6, 3, 1},
+	"kzgopen": {6, 3, 1}, "kzgcommit": {8, 4, 2}, "kzgbatchopen": {8, 4, 2}, "multiexp": {4, 3, 2}, "codec": {6, 3, 1},
 	"plookupvec": {3, 3, 1}, "plookuptab": {3, 2, 1}, "permutation": {3, 3, 1}, "fri": {4, 3, 1}, "shplonk": {3, 3, 1},
 	"fflonk": {3, 3, 1}, "pedersen": {3, 3, 1}, "kzglagrange": {3, 3, 1}, "polynomial": {0x10, 6, 1},
 }
